@@ -1,5 +1,6 @@
 //! Native replay / translator-validation oracle: runs the *real* mithril-common functions on concrete
 //! inputs read from stdin (one query per line) and prints one result line per query.
+use std::future::Future;
 use std::io::BufRead;
 use std::panic;
 
@@ -44,6 +45,52 @@ fn entity(p: &[&str]) -> String {
     }
 }
 
+/// chain_link <retarget>: build a real certificate chain (stable signer set, one certificate per epoch) with the
+/// crate's own test builder and verify one link with the real `MithrilCertificateVerifier`.
+///   retarget = 0: the honest link (certificate of epoch e -> certificate of epoch e-1)      -> must be accepted
+///   retarget = 1: the certificate of epoch e re-targeted to the certificate of epoch e+1 (previous_hash replaced,
+///                 hash recomputed; the multi-signature does not cover previous_hash)            -> must be rejected
+fn chain_link(retarget: bool) -> String {
+    use mithril_common::certificate_chain::{CertificateVerifier, MithrilCertificateVerifier};
+    use mithril_common::test::builder::{CertificateChainBuilder, CertificateChainingMethod};
+    use mithril_common::test::double::FakeCertificaterRetriever;
+    use std::sync::Arc;
+    let chain = CertificateChainBuilder::new()
+        .with_total_certificates(5)
+        .with_certificates_per_epoch(1)
+        .with_total_signers_per_epoch_processor(&|_| 3)
+        .with_certificate_chaining_method(CertificateChainingMethod::Sequential)
+        .build();
+    // certificates_chained is ordered latest -> genesis
+    let certs = &chain.certificates_chained;
+    let later = certs[1].clone(); // epoch e+1
+    let mut cert = certs[2].clone(); // epoch e
+    let earlier = certs[3].clone(); // epoch e-1
+    assert!(*later.epoch == *cert.epoch + 1 && *cert.epoch == *earlier.epoch + 1);
+    let previous = if retarget {
+        cert.previous_hash = later.hash.clone();
+        cert.hash = cert.try_compute_hash().unwrap();
+        later
+    } else {
+        earlier
+    };
+    let logger = slog::Logger::root(slog::Discard, slog::o!());
+    let verifier = MithrilCertificateVerifier::new(
+        logger,
+        Arc::new(FakeCertificaterRetriever::from_certificates(&[])),
+        Arc::new(chain.genesis_verifier.clone()),
+    );
+    let fut = verifier.verify_standard_certificate(&cert, &previous);
+    let mut fut = std::pin::pin!(fut);
+    let waker = std::task::Waker::noop();
+    let mut cx = std::task::Context::from_waker(&waker);
+    match fut.as_mut().poll(&mut cx) {
+        std::task::Poll::Ready(Ok(())) => format!("accepted certificate.epoch={} previous.epoch={}", *cert.epoch, *previous.epoch),
+        std::task::Poll::Ready(Err(e)) => format!("rejected certificate.epoch={} previous.epoch={} ({})", *cert.epoch, *previous.epoch, e),
+        std::task::Poll::Pending => "pending".to_string(),
+    }
+}
+
 fn beacon(kind: &str, tip: u64, sec: u64, step: u64) -> String {
     let r = panic::catch_unwind(|| match kind {
         "tx" => *CardanoTransactionsSigningConfig { security_parameter: BlockNumberOffset(sec), step: BlockNumber(step) }
@@ -69,6 +116,7 @@ fn main() {
         let out = match p[0] {
             "beacon" => beacon(p[1], p[2].parse().unwrap(), p[3].parse().unwrap(), p[4].parse().unwrap()),
             "entity" => entity(&p),
+            "chain_link" => chain_link(p[1] == "1"),
             "epoch_gap" => {
                 let a = Epoch(p[1].parse().unwrap());
                 let b = Epoch(p[2].parse().unwrap());
